@@ -124,6 +124,7 @@ def handleC17 (toks : List String) : String :=
   so theta v c | so clear | so setpos POS | so setsys CELL POS   theta_max setter / clear_properties / in-place edit of the system -> ok
   so solve 0 | so solve 1 v c                solve_G(theta_max)                                  -> ok | err:value
   so read PROP SEL                           property of the selected atoms                      -> numbers | err:value
+  so cond                                    conditioning 27 det(QtQ)/tr(QtQ)^3 of the matched sets the cached G came from (exemption device)
   do new SYS0 SYS1 ARGS | do solve ARGS      DifferentialDisplacement(...) / .solve(...)        -> ok | err:assert | err:value
        SYS = CELL n POS;  ARGS = (0 | 1 SYS) (0 | 1 SYS) (0 | 1 m NLIST) (0 | 1 m NLIST m NLIST) (0 | 1 ref)
   do read                                    -> none | k then 3k numbers
@@ -133,6 +134,26 @@ def handleC17 (toks : List String) : String :=
 structure St where
   so : Option (SObj Rat)
   dob : Option (DObj Rat)
+  /-- conditioning of the matched sets the cached `G` was solved from (harness exemption device, not part of the
+      model): per atom `27 det(QᵀQ) / tr(QᵀQ)³`, -1 without pairs (`G` = identity, exact). -/
+  cond : Array Rat := #[]
+
+def condOf (a : SIn Rat) : Array Rat :=
+  match a.pvec with
+  | none => #[]
+  | some pv => ((List.range a.n).map fun i =>
+      let m := matchPQ magR a.cosT big (pv i) (nbrVectors a.cell a.pos (a.nlist i) i)
+      if m.isEmpty then (-1 : Rat) else
+      let q := qtq m
+      let t := q.r0.x + q.r1.y + q.r2.z
+      if t = 0 then 0 else 27 * M3.det q / (t * t * t)).toArray
+
+/-- after an operation: when `G` was (re)computed, remember the conditioning of what it was solved from. -/
+def withCond (old : SObj Rat) (forced : Bool) (st : St) : St :=
+  match st.so with
+  | none => st
+  | some o =>
+    if forced || ((old.cache .G).isNone && (o.cache .G).isSome) then { st with cond := condOf o.inp } else st
 
 def pOpt {α : Type} (p : P α) : P (Option α) := do
   let b ← pBool
@@ -223,11 +244,12 @@ def stepC17 (st : St) (toks : List String) : St × String :=
       | "solve" => runS st (do
           let th ← pOpt (do let v ← pRat; let c ← pRat; pure (v, c)); pEnd
           let r := o.solve magR big th
-          pure ({ st with so := some r.1 }, if r.2 then "ok" else err "value")) rest
+          pure (withCond o r.2 { st with so := some r.1 }, if r.2 then "ok" else err "value")) rest
+      | "cond" => (st, showRats st.cond.toList)
       | "read" => runS st (do
           let p ← pProp; let sel ← pSel o.inp.n; pEnd
           let r := o.read magR big p
-          pure ({ st with so := some r.1 }, match r.2 with | some v => showPayload sel v | none => err "value")) rest
+          pure (withCond o false { st with so := some r.1 }, match r.2 with | some v => showPayload sel v | none => err "value")) rest
       | _ => (st, err "op")
   | "do" :: "new" :: rest => runS st (do
       let s0 ← pSys; let s1 ← pSys
@@ -267,4 +289,4 @@ def stepC17 (st : St) (toks : List String) : St × String :=
       | _ => (st, err "op")
   | _ => (st, handleC17 toks)
 
-def main : IO Unit := runDriverS stepC17 ⟨none, none⟩
+def main : IO Unit := runDriverS stepC17 ⟨none, none, #[]⟩
